@@ -194,6 +194,86 @@ CLAIMS = {
         note=BASE_NOTE + 'subscriber list modelled as "always append" (attach never deduplicates, exercised in the '
              'correspondence only); expiry events of one step are compared as a multiset.',
         design='DESIGN.md section 7, C15'),
+    'C03': dict(
+        technique='Coq proof (slot independence + per-slot invariant, induction over the schedule) that both reassembly loops '
+                  'deliver exactly the specified assembled messages for every well-formed schedule + differential check through '
+                  'six reader front-ends',
+        text='C03_stream / C03_queue (forall s, WF s -> the loop consumes every line without raising and its deliveries, mapped '
+             'to what the property observes, equal spec_deliveries s), C03_slot_independence_*, C03_single_slot_correct, '
+             'C03_singles_immediate, C03_wf_check_sound are proved in Coq for any number of messages, any interleaving, '
+             'per-message fragment permutations, slot reuse after completion, incomplete sets, any fragment count, with '
+             'wrapper and skipped lines in between. The loops are modelled given the outcome of produce(line) (C05/C10 model '
+             'the parser; Model/Reader.v composes them). ' + TIE,
+        note=BASE_NOTE + 'Prim/PyList.v models list indexing / slicing with Python semantics; dictionaries are insertion-'
+             'ordered association lists; the buffer size, except tuples and line filter literals are tied to the source by '
+             'C05_literals_tied over Gen/GenConst.v.',
+        design='DESIGN.md section 7, C03'),
+    'C04': dict(
+        technique='Coq proof that every NMEA carrier of the same armored payload (text level: talker, VDM/VDO case, channel, '
+                  'sequence id, cut points, permutation, checksum digits, tag block, trailing white space) decodes to the same '
+                  'message, = decode_bits of the payload bits + differential check of the extracted decode_api + invariance '
+                  'oracle',
+        text='C04 (any two carriers of the same payload give the same decoded message or exception), C04_plain, C04_bits '
+             '(= decode_bits of the de-armored bits), C04_swapped, C04_parse_carrier (the exception-precise parser model applied '
+             'to the carrier TEXT yields the expected fragment record whatever the carrier details), C04_assemble_perm, '
+             'C04_decider (the boolean carrier checker used by the harness is sound and complete), C04_limit_tied are proved '
+             'in Coq, unbounded in payload length and content, 1..5 fragments of at most 200 characters each. ' + TIE,
+        note=BASE_NOTE + 'Spec/CarrierSpec.v is the hand-written carrier family of the property text (chunk bound 200 from '
+             'NMEA, tied to the regenerated MAX_PAYLOAD_LEN); str arguments are their UTF-8 bytes.',
+        design='DESIGN.md section 7, C04'),
+    'C05': dict(
+        technique='Coq proof by exception-set composition: exception-precise Gallina models of the sentence parser, decode(), '
+                  'the tag block queue and both reader loops; decode() raises only library exceptions and no line sequence '
+                  'makes a reader raise, for ALL byte strings; skipped lines are no-ops; slot isolation + differential check '
+                  '(field x token matrix, mutations, garbage, readers with and without tbq)',
+        text='C05_decode / C05_decode_hierarchy (for every list of byte strings, lenient and strict, decode() returns or raises '
+             'an AISBaseException), C05_produce, C05_produce_reader_set, C05_produce_ranges; the tag block queue part '
+             '(Props/C05_tbq.v: put_sentence raises only InvalidNMEAMessageException, before touching its state); the reader '
+             'level over the composed model Model/Reader.v: C05_readers_never_raise (every line sequence, both loops, with or '
+             'without a tag block queue, is consumed completely and the loop ends normally), C05_skip_unparsable, '
+             'C05_skip_bad_tag_block, C05_skipped_lines_are_noops, C05_slot_independence and C05_slot_isolation (what a reader '
+             'delivers from a slot is exactly what it delivers when fed only that slot\'s lines), C05_literals_tied. All proved '
+             'about the REPAIRED code (eight fix: commits; each defect was first reported with a concrete replay). ' + TIE,
+        note=BASE_NOTE + 'Prim/PyBytes.v, Prim/PyInt.v, Prim/PyText.v model CPython bytes/str/int primitives by hand (micro-'
+             'harness on every run); int() of non-ASCII digit strings in tag blocks is a Section-variable oracle (theorems hold '
+             'for all oracles; such cases are skipped by the correspondence and counted); generators, queue.Queue and file '
+             'iteration are modelled as lists.',
+        design='DESIGN.md section 7, C05'),
+    'C07': dict(
+        technique='Coq proof that the two reassembly loops compute the same step (up to the IndexError the queue alone catches) '
+                  'and that all front-ends feed the same lines + differential check running every line sequence through six '
+                  'front-ends and decode()',
+        text='C07_partial: C07_queue_step_eq (queue_step = stream_step wherever no IndexError is caught), C07_runs_agree, '
+             'C07_runs_equal, C07_frontends_agree (IterMessages / ByteStream / BinaryIOStream / FileReaderStream feed the same '
+             'line list for lines passing the Stream filter; SocketStream by C06), C07_assemble_perm are proved in Coq. PARTIAL: '
+             'the clause "decode() of a message\'s parts agrees with decoding the delivered sentence" is proved at the level of '
+             'assemble_from_iterable (same assembled record for any permutation) and C04, and demanded by the oracle on the '
+             'implementation on every run; its single Coq statement over Model/DecodeApi.v is not composed yet. ' + TIE,
+        note=BASE_NOTE + 'preprocessors are not modelled; lines starting with white space or a non-standard delimiter are '
+             'outside the property (generated for model-vs-code only).',
+        design='DESIGN.md section 7, C07'),
+    'C10': dict(
+        technique='Coq proof (XOR substitution lemma, checksum-field parsing, conjunction on assembly, strict mode) over the '
+                  'exception-precise parser model for all sentences + exhaustive single-byte corruption sweeps on the '
+                  'implementation',
+        text='C10_xor_subst, C10_valid_iff (+ tag-block form), C10_assembled_valid, C10_decode_flag, C10_strict_iff, '
+             'C10_substitution_detected, C10_substitution_rejected_strict are proved in Coq for all sentences with a two-hex-'
+             'digit checksum field (other checksum forms are modelled exactly for C05 but nothing is claimed about them, as the '
+             'property speaks of the two hex digits). ' + TIE,
+        note=BASE_NOTE + 'same parser model as C05.',
+        design='DESIGN.md section 7, C10'),
+    'C18': dict(
+        technique='Coq proof that the wrappers attached by both loops equal an independent pending-slot specification for all '
+                  'line sequences (induction; freshness invariant of buffered fragments) + differential check through the '
+                  'readers and NMEAQueue',
+        text='C18_stream / C18_queue (for every input sequence the wrapper attached to each delivery is spec_wrapper: the '
+             'latest wrapper since the previous delivery, taken and cleared by the next delivery, single or assembled), '
+             'C18_schedules_*, C18_unwrapped_has_none, C18_at_most_one, C18_latest are proved in Coq; '
+             'C18_unrepaired_queue_refuted shows the pre-fix queue loop violating the statement (the defect repaired by the '
+             'fix: commit on queue.py). ' + TIE,
+        note=BASE_NOTE + 'wrapper field parsing (timestamp, country, region, pss, online) is part of the parser model '
+             '(Model/Nmea.v gatehouse_init) and compared by the correspondence.',
+        design='DESIGN.md section 7, C18'),
 }
 
 PENDING = 'check not yet built in this snapshot (work in progress; see DESIGN.md section 12 for the status)'
